@@ -407,3 +407,25 @@ func lemmaViewMergeAssociative(a, b, c *ClusterView) (left, right *ClusterView) 
 //@   modifies v.VersionVector
 //@   ensures  wfView(v)
 //@   ensures  forall k string :: A(v.VersionVector.m, k) >= old(A(v.VersionVector.m, k))
+
+// ---------------------------------------------------------------------------------------------
+// C13 for the cluster wire format: decoding a cluster view from arbitrary bytes never panics and never allocates
+// out of proportion to the input (the declared member count is not trusted)
+//@ func readerReadNodeStateBody
+//@   trusted
+//@   requires r != nil && messages.rwf(r)
+//@   modifies r.pos, r.err
+//@   ensures messages.rwf(r) && (result.1 == nil ==> result.0 != nil)
+//@ func ReadVersionVector
+//@   trusted
+//@   requires r != nil && messages.rwf(r)
+//@   modifies r.pos, r.err
+//@   ensures messages.rwf(r)
+//@ func readClusterView
+//@   allocbound len(r.buf)
+//@   callspec ReadInto ensures messages.rwf(r) && r.buf == old(r.buf)
+//@   requires r != nil && messages.rwf(r)
+//@   modifies r.pos, r.err
+//@ loop readClusterView#1
+//@   modifies r.pos, r.err, members[*]
+//@   invariant messages.rwf(r) && members != nil
